@@ -746,3 +746,42 @@ def sorter_slot(rep, lib, rid="C08-SLOT"):
                                              "" if order_ok else " (eviction must follow the insertion)"), b.where())
         else:
             r.ok(key, "stored %d, evicted %d, budget %s" % (got["push"], got["evict"], got["space"]), b.where())
+
+
+def sink_immediate(rep, lib, rid="C06-SINK-IMMEDIATE"):
+    """A sink writes each row to the output while that row is processed (nothing is held back in the stage)."""
+    r = rep.rule(rid, "both output stages hand every row to the writer before process() returns: every non-error "
+                 "return of JsonProcess::process / TextProcess::process has passed a write on self.writer (directly or "
+                 "in print_list), so what reached the output when a run fails is exactly the rows processed so far",
+                 floor=2, analysis="A2 must-pass-through (following the local helper print_list) + A4 receiver provenance")
+    from rules.printer_rules import is_write_fmt, field_index, _is_self_field
+    for struct in ("output_style::JsonProcess", "output_style::TextProcess"):
+        st = _stage_named(lib, struct)
+        if st is None or "process" not in st.bodies:
+            r.missing(struct + "::process")
+            continue
+        b = st.bodies["process"]
+        wi = field_index(lib, struct, "writer")
+
+        def writes(body, depth=0):
+            """Blocks of `body` that certainly write to self.writer: a write_fmt whose receiver derives from
+            self.writer, or a call of a local method of the same stage that must-passes such a write."""
+            pr = Prov(body, LOOK + ("Deref>::deref", "DerefMut>::deref_mut", "RefCell::<T>::borrow_mut"))
+            out = set()
+            for c in body.calls:
+                if is_write_fmt(c) or (c.callee or "").endswith("Write::write_all"):
+                    if wi is not None and c.args and _is_self_field(pr.origins(c.args[0]), ("f%d" % wi,)):
+                        out.add(c.bb)
+                elif depth < 2 and (c.name or "") in lib.bodies and (c.name or "").startswith(struct + "::"):
+                    cb = lib.bodies[c.name]
+                    if not non_error_escape(cb, writes(cb, depth + 1)):
+                        out.add(c.bb)
+            return out
+        w = writes(b)
+        esc = non_error_escape(b, w) if w else [0]
+        if esc:
+            r.bad(st.short + "::process", "a row can be accepted (non-error return) without having been written to the "
+                  "output: rows are held back in the stage and are lost if the run stops early", b.where(esc[0]))
+        else:
+            r.ok(st.short + "::process", "every non-error return has passed a write on self.writer (%d write site(s))"
+                 % len(w), b.where())
